@@ -420,9 +420,17 @@ def render(prog, carrier, running=False, first_line=1, py=(3, 12)):
         r.lines.append("    " * ind + text)
         return len(r.lines)
 
+    probe_no = [0]
+
+    def probe_src():
+        # every second probe is a call with exactly three literal None arguments: what the compiler emits for the
+        # with statement's own __exit__(None, None, None), but an ordinary call
+        probe_no[0] += 1
+        return "env.probe(None, None, None)" if probe_no[0] % 2 == 0 else "env.probe()"
+
     def susp(ind):
         if running:
-            emit(ind, "env.probe()")
+            emit(ind, probe_src())
         elif carrier in ("gen", "ageny"):
             emit(ind, "yield 'S'")        # ageny: an async generator suspended at its OWN yield
         else:
@@ -445,7 +453,7 @@ def render(prog, carrier, running=False, first_line=1, py=(3, 12)):
     def stmt(s, ind):
         k = s["k"]
         if k == "pass":
-            emit(ind, "env.probe()" if running else "env.nop()")
+            emit(ind, probe_src() if running else "env.nop()")
             if s.get("fat"):
                 # a long stretch of code: jump arguments and exception-table offsets beyond it need EXTENDED_ARG / two-byte varints
                 for _ in range(60):
